@@ -338,8 +338,8 @@ def _main(prop, mod, tier, seed, replay, nproc, t_start):
             seen_cls.append(m["cls"])
             print(f"KNOWN-FINDING: property={prop} {known[m['cls']]['what']}", flush=True)
 
-    # evidence
-    if not replay:
+    # evidence (VERIF_NO_EVIDENCE: trial runs on a changed tree must not overwrite the evidence of the unchanged tree)
+    if not replay and not os.environ.get("VERIF_NO_EVIDENCE"):
         distinct = {}
         tags = {}
         for r in results:
